@@ -95,6 +95,7 @@ func main() {
 		fn(r)
 		props.OtherTarget(r)
 		props.ThirdTarget(r)
+	props.OtherMachines(r)
 		props.ConfigChildren(r)
 		props.ErrorsFirstChild(r)
 		return r.Finish()
